@@ -616,12 +616,16 @@ def commands(ctx, c):
     f = ctx.fn("patronus", Pm + "parse_command")
     rows = {}
     m = None
+    best = 0
     for n in walk(f["body"]):
-        if n.get("k") == "match" and any(alt.get("k") == "plit" and alt.get("lk") == "bytestr" for a in n["arms"] for alt in pat_alts(a["pat"])):
-            m = n
+        if n.get("k") == "match":
+            cnt = len([alt for a in n["arms"] for alt in pat_alts(a["pat"]) if alt.get("k") == "plit" and alt.get("lk") == "bytestr"])
+            if cnt > best:
+                m, best = n, cnt          # the dispatch on the command name: the match that names the most commands
     if m is None:
         ctx.violation("R14.4", "parse_command:shape", f["span"], "UNRECOGNISED: no match over command names")
         return
+    fix_ = Index(f["body"])
     for arm in m["arms"]:
         names = [alt["v"] for alt in pat_alts(arm["pat"]) if alt.get("k") == "plit"]
         if not names:
@@ -656,6 +660,21 @@ def commands(ctx, c):
                                     holds_for = (lit["v"] == nm) == (pol == (c_["op"] == "=="))
                                     if holds_for:
                                         sel.append(vn)
+                if not sel:
+                    # selected by a nested `match name { b"push" => .., _ => .. }` on the same token
+                    for vn, x in built:
+                        consistent, tested = True, False
+                        for c_, pol in psanorm.path_conditions(fix_, x, upto=m, arms=True):
+                            if c_.get("k") == "armpat" and sid is not None and is_local(c_["scrut"], sid):
+                                alts_ = pat_alts(c_["pat"])
+                                if any(a_.get("k") in ("pwild", "pbind") for a_ in alts_):
+                                    continue
+                                lits_ = {a_.get("v") for a_ in alts_ if a_.get("k") == "plit"}
+                                tested = True
+                                if (nm in lits_) != pol:
+                                    consistent = False
+                        if consistent and tested:
+                            sel.append(vn)
                 rows[nm] = sel[0] if len(set(sel)) == 1 else None
     _, wrows = c05.cmd_table(ctx, c)
     adt = c.adts.get("patronus::smt::solver::SmtCommand")
